@@ -2,7 +2,8 @@
 // compiled from tongo's TL generator output: for every type and function of a schema it draws abstract
 // values (tlref), maps them by field position into the generated Go types (tlbind) and compares
 // MarshalTL / tl.Unmarshal / the generated client methods / the generated request-decoder table with the
-// reference bytes. The package is compiled and vetted as part of the harness and copied verbatim (import
+// reference bytes; the reference bytes also arrive through readers that cut them into pieces, and proper
+// prefixes of them must be refused (readers.go). The package is compiled and vetted as part of the harness and copied verbatim (import
 // paths rewritten) into the scratch module.
 package tlrun
 
@@ -45,6 +46,9 @@ type Result struct {
 	NonTrivial int            `json:"nontrivial"`
 	Distinct   int            `json:"distinct"`
 	Calls      int            `json:"calls"`
+	Pieces     int            `json:"pieces"`    // decodings of reference bytes through a reader that cuts them into pieces
+	Prefixes   int            `json:"prefixes"`  // proper prefixes of reference bytes handed to a generated decoder
+	Truncated  int            `json:"truncated"` // truncated answers handed to generated client methods, truncated requests to the decoder table
 	Classes    map[string]int `json:"classes"`
 	Failures   []string       `json:"failures"`
 	NFailures  int            `json:"nfailures"`
@@ -204,7 +208,7 @@ func emptyPresentCond(v *tlref.Value) int {
 }
 
 // codec checks MarshalTL and tl.Unmarshal of one value. It returns the reference bytes.
-func (r *runner) codec(t *target, v *tlref.Value, stale func(tlref.Field) *tlref.Value, form int, formRnd tlref.Rand) (want []byte, gv reflect.Value, ok bool) {
+func (r *runner) codec(t *target, v *tlref.Value, stale func(tlref.Field) *tlref.Value, form int, formRnd, cutRnd tlref.Rand, withPrefixes bool) (want []byte, gv reflect.Value, ok bool) {
 	want, err := r.encode(t, v)
 	if err != nil {
 		r.fail(0, "harness error: reference encoder on %s: %v", t.name, err)
@@ -234,7 +238,7 @@ func (r *runner) codec(t *target, v *tlref.Value, stale func(tlref.Field) *tlref
 		r.fail(len(want), "%s: generated type %v has no MarshalTL", t.name, t.goType)
 		return want, gv, false
 	}
-	for _, tail := range [][]byte{nil, {0xb5, 0x75, 0x72, 0x99, 1, 2, 3}} {
+	for _, tail := range [][]byte{nil, followingBytes} {
 		data := append(append([]byte{}, want...), tail...)
 		p := reflect.New(t.goType)
 		rd := bytes.NewReader(data)
@@ -252,11 +256,15 @@ func (r *runner) codec(t *target, v *tlref.Value, stale func(tlref.Field) *tlref
 			return want, gv, false
 		}
 	}
+	// the same bytes through readers that cut them into pieces, and proper prefixes of them (readers.go)
+	if !r.pieces(t, v, want, cutRnd) || withPrefixes && !r.prefixes(t, v, want, cutRnd) {
+		return want, gv, false
+	}
 	return want, gv, true
 }
 
 // call drives the generated client method of function target t with request value v.
-func (r *runner) call(t *target, v *tlref.Value, want []byte, gv reflect.Value, rnd tlref.Rand, results map[string]*target) {
+func (r *runner) call(t *target, v *tlref.Value, want []byte, gv reflect.Value, rnd, cutRnd tlref.Rand, results map[string]*target) {
 	f := t.con
 	req := binary.LittleEndian.AppendUint32(nil, f.ID)
 	req = append(req, want...)
@@ -277,6 +285,15 @@ func (r *runner) call(t *target, v *tlref.Value, want []byte, gv reflect.Value, 
 		back, err := tlbind.FromGo(r.s, t.te, reflect.ValueOf(val))
 		if err != nil || !tlref.Equal(back, v) {
 			r.fail(len(req), "%s: request decoder yields %s (%v), want %s", f.Name, back, err, v)
+		}
+	}
+	// a request whose arguments are cut short is not a request of this function
+	for _, c := range answerCuts(4, len(req), cutRnd) {
+		r.res.Truncated++
+		_, name, val, err := r.truncatedRequest(req[:c])
+		if err == nil && name != nil && *name == f.Name {
+			r.fail(c, "%s: the request decoder accepts the first %d of the %d bytes of a request as a request of this function with the arguments %v\nprefix %x\nthe whole request %x\narguments %s", f.Name, c, len(req), val, req[:c], req, v)
+			break
 		}
 	}
 	// the method, answered with a value of the result type / with liteServer.error / with an unknown id
@@ -330,7 +347,9 @@ func (r *runner) call(t *target, v *tlref.Value, want []byte, gv reflect.Value, 
 		back, e2 := tlbind.ObjectFromGo(r.s, r.errorCon, reflect.ValueOf(err))
 		if e2 != nil || !tlref.Equal(back, answerVal) {
 			r.fail(len(answer), "%s: the generated method returns error %s, the answer was %s", f.Name, back, answerVal)
+			return
 		}
+		r.truncatedAnswers(t, gv, answer, answerVal, &answer, &calls, cutRnd)
 	case mode == 1:
 		r.res.Classes["method answered with an unknown constructor id"]++
 		if err == nil {
@@ -349,6 +368,55 @@ func (r *runner) call(t *target, v *tlref.Value, want []byte, gv reflect.Value, 
 		back, e2 := tlbind.FromGo(r.s, rt.te, reflect.ValueOf(res))
 		if e2 != nil || !tlref.Equal(back, answerVal) {
 			r.fail(len(answer), "%s: the generated method returns %s (%v), the answer was %s", f.Name, back, e2, answerVal)
+			return
+		}
+		r.truncatedAnswers(t, gv, answer, answerVal, &answer, &calls, cutRnd)
+	}
+}
+
+// truncatedRequest hands a request that was cut short to the generated decoder table.
+func (r *runner) truncatedRequest(b []byte) (tag uint32, name *string, val any, err error) {
+	defer func() {
+		if x := recover(); x != nil {
+			err = fmt.Errorf("panic: %v", x)
+		}
+	}()
+	return r.e.Decode(b)
+}
+
+// truncatedAnswers calls the generated client method of t again and lets the transport answer with proper
+// prefixes of an answer the method has just decoded: every one of them must come back as an error (and
+// not as the liteServer.error value that a complete error answer would be).
+func (r *runner) truncatedAnswers(t *target, gv reflect.Value, full []byte, fullVal *tlref.Value, answer *[]byte, calls *int, cutRnd tlref.Rand) {
+	var errType reflect.Type
+	if r.errorCon != nil {
+		errType = reflect.TypeOf(r.e.Types[r.errorCon.Name])
+	}
+	for _, c := range answerCuts(0, len(full), cutRnd) {
+		*answer = full[:c:c]
+		*calls = 0
+		r.res.Truncated++
+		problem := func() (problem string) {
+			defer func() {
+				if x := recover(); x != nil {
+					problem = fmt.Sprintf("panics: %v", x)
+				}
+			}()
+			res, err := t.fn.Call(context.Background(), gv.Interface())
+			switch {
+			case err == nil:
+				return fmt.Sprintf("returns no error and the result %+v", res)
+			case errType != nil && reflect.TypeOf(err) == errType:
+				return fmt.Sprintf("returns it as the complete liteServer.error %+v", err)
+			}
+			return ""
+		}()
+		if problem == "" && *calls != 1 {
+			problem = fmt.Sprintf("sent %d requests", *calls)
+		}
+		if problem != "" {
+			r.fail(c, "%s: answered with the first %d of the %d bytes of an answer, the generated method %s\nprefix %x\nthe whole answer %x\nis %s", t.name, c, len(full), problem, full[:c], full, fullVal)
+			return
 		}
 	}
 }
@@ -447,7 +515,10 @@ func RunEntry(e Entry, seed uint64, perTarget int) (res Result) {
 					return s.Draw(rnd, f.Type, &tlref.GenOpts{MaxBytes: 20, MaxVec: 2})
 				}
 			}
-			want, gv, ok := r.codec(t, v, stale, form, formRnd)
+			// so have the pieces and prefixes the reference bytes are handed over in
+			cutRnd := tlref.NewSeedRand(seed ^ uint64(ti+1)*0x8ebc6af09c88c6e3 ^ uint64(k+1)*0x589965cc75374cc3 ^ 0xc075)
+			// (prefixes: of every second drawn value and of the all-empty ones)
+			want, gv, ok := r.codec(t, v, stale, form, formRnd, cutRnd, k%2 == 0 || k >= perTarget)
 			res.Values++
 			ft := s.Inspect(v)
 			if ft.ModeBits > 0 {
@@ -474,7 +545,7 @@ func RunEntry(e Entry, seed uint64, perTarget int) (res Result) {
 				res.Classes["union value"]++
 			}
 			if ok && t.fn != nil {
-				r.call(t, v, want, gv, rnd, results)
+				r.call(t, v, want, gv, rnd, cutRnd, results)
 			}
 		}
 	}
